@@ -109,7 +109,12 @@ def check_case(case):
         return 'absent' if p is None else p
 
     dup = [x for x in labs if sum(1 for y in labs if spans.pos([y], x) == 0) > 1]
-    if dup and not any(lab is not None and spans.pos(dup, lab) is not None for lab in (start, end)):
+    plain_dup = bool(dup) and desc['k'] in ('list', 'tuple')
+    if plain_dup:
+        # a list / tuple span with repeated labels: a label denotes its first occurrence (list.index), and solve() walks
+        # the *positions* between start and end - every one of them, also the later occurrences of a repeated label
+        res.tag('repeated-labels:list')
+    elif dup and not any(lab is not None and spans.pos(dup, lab) is not None for lab in (start, end)):
         # a span with repeated labels: only the clause about an explicit start/end that does not resolve to a
         # single position is asserted (period -> label -> position is not one-to-one otherwise)
         res.tag('skipped:repeated-labels-without-ambiguous-start-end')
@@ -117,6 +122,10 @@ def check_case(case):
     bad = None
     p0 = L
     p1 = n - 1 - K
+    if plain_dup:
+        # the documented defaults are *labels* (span[lags], span[-1 - leads]); on a list with repeated labels a label
+        # denotes its first occurrence, whether it was passed or defaulted
+        p0, p1 = spans.pos(labs, labs[L]), spans.pos(labs, labs[n - 1 - K])
     if case.get('start') is not None:
         p0 = locate(start, 'start')
         if not isinstance(p0, int):
@@ -144,9 +153,13 @@ def check_case(case):
         r = attempt(B.solve_t, p, **opts)
         if not r.ok:
             exc = r.exc
-            attempt(C.solve_period, labs[p], **opts)
+            attempt(C.solve_t, p, **opts) if plain_dup else attempt(C.solve_period, labs[p], **opts)
             break
-        rc = attempt(C.solve_period, labs[p], **opts)
+        if plain_dup:
+            C.solve_t(p, **opts)          # (solve_period would address the first occurrence of a repeated label)
+            rc = r
+        else:
+            rc = attempt(C.solve_period, labs[p], **opts)
         if not rc.ok or rc.value != r.value:
             res.fail('solve_period-vs-solve_t/outcome/' + desc['k'], f'{detail}: period {labs[p]!r}: solve_t {r!r}, solve_period {rc!r}')
         triple[0].append(labs[p])
@@ -221,7 +234,10 @@ DUPLICATE_SPANS = [{'k': 'pdindex', 'items': ['a', 'b', 'a', 'c']}, {'k': 'pdind
                    {'k': 'pdindex', 'items': [3, 1, 2, 1, 0]}, {'k': 'pdindex', 'items': [5, 6, 6]},
                    # NumPy-array spans with a repeated label, sorted and not
                    {'k': 'np', 'items': [1, 2, 2, 3]}, {'k': 'np', 'items': ['a', 'a', 'b', 'c']}, {'k': 'np', 'items': [3, 1, 2, 1, 0]},
-                   {'k': 'np', 'items': [5, 6, 6]}, {'k': 'np', 'items': [2000, 2000, 2001]}]
+                   {'k': 'np', 'items': [5, 6, 6]}, {'k': 'np', 'items': [2000, 2000, 2001]},
+                   # plain lists / tuples: a repeated label inside the range, a bool next to the int it equals
+                   {'k': 'list', 'items': ['a', 'b', 'c', 'c', 'd']}, {'k': 'list', 'items': [2001, 2002, 2002, 2002, 2003]},
+                   {'k': 'list', 'items': [0, 1, True, 2, 3]}, {'k': 'list', 'items': ['x', 'y', 'x', 'z'], 'as': 'tuple'}]
 
 
 def gen_pairs(max_len):
